@@ -5,3 +5,8 @@ import Bisquitt.Spec.Codec
 import Bisquitt.Props.C20
 import Bisquitt.Props.C21
 import Bisquitt.Props.C22
+import Bisquitt.Props.C05
+import Bisquitt.Props.C18
+import Bisquitt.Props.C19
+import Bisquitt.Props.C29
+import Bisquitt.Spec.Tx
